@@ -23,6 +23,7 @@ type caseB struct {
 	AddOrder    []int             `json:"add_order,omitempty"`
 	Targets     string            `json:"targets,omitempty"`
 	Provider    string            `json:"provider,omitempty"`
+	Scheme      string            `json:"path_scheme,omitempty"`
 	DepKeyOrder string            `json:"dep_key_order,omitempty"`
 	Module      int               `json:"module"`
 	Files       map[string]string `json:"files,omitempty"`
@@ -40,6 +41,7 @@ type world struct {
 	g        enum.Digraph
 	remote   []bool
 	named    bool
+	scheme   int
 	versions []int
 	files    []map[string]string
 	mf       []map[string]string
@@ -53,17 +55,50 @@ type world struct {
 
 func depName(i int) string { return fmt.Sprintf("buf.build/acme/m%d", i) }
 
-func depFiles(i int, g enum.Digraph, version int) map[string]string {
+// Path schemes of part B: under which path a module provides the file its dependents import.
+//
+//	schemePlain          p<i>/m<i>.proto
+//	schemeWKTProvider    a well-known-type path (google/protobuf/*.proto): the module is a WKT provider such as
+//	                     buf.build/protocolbuffers/wellknowntypes or a module vendoring google/protobuf; it is a
+//	                     dependency of its importers like any other module
+//	schemeWKTUnprovided  plain paths, and every module also imports a well-known type that no module of the set
+//	                     provides: not an error, not a dependency
+const (
+	schemePlain = iota
+	schemeWKTProvider
+	schemeWKTUnprovided
+	numSchemes
+)
+
+var schemeNames = [numSchemes]string{"", "wkt-path-provider", "wkt-import-unprovided"}
+
+// wktProviderPaths[i] is the well-known-type path module i provides under schemeWKTProvider.
+var wktProviderPaths = []string{"google/protobuf/any.proto", "google/protobuf/timestamp.proto", "google/protobuf/duration.proto"}
+
+// wktUnprovidedImport is imported by every module under schemeWKTUnprovided.
+const wktUnprovidedImport = "google/protobuf/empty.proto"
+
+func depPath(i, scheme int) string {
+	if scheme == schemeWKTProvider {
+		return wktProviderPaths[i]
+	}
+	return fmt.Sprintf("p%d/m%d.proto", i, i)
+}
+
+func depFiles(i int, g enum.Digraph, version int, scheme int) map[string]string {
 	var sb strings.Builder
 	for j := 0; j < g.N; j++ {
 		if g.Adj[i][j] {
-			fmt.Fprintf(&sb, "import \"p%d/m%d.proto\";\n", j, j)
+			fmt.Fprintf(&sb, "import \"%s\";\n", depPath(j, scheme))
 		}
+	}
+	if scheme == schemeWKTUnprovided {
+		fmt.Fprintf(&sb, "import \"%s\";\n", wktUnprovidedImport)
 	}
 	fmt.Fprintf(&sb, "// m%d v%d\n", i, version)
 	files := map[string]string{
-		fmt.Sprintf("p%d/m%d.proto", i, i): sb.String(),
-		"LICENSE":                          fmt.Sprintf("license of m%d", i),
+		depPath(i, scheme): sb.String(),
+		"LICENSE":          fmt.Sprintf("license of m%d", i),
 	}
 	switch i {
 	case 1:
@@ -75,13 +110,13 @@ func depFiles(i int, g enum.Digraph, version int) map[string]string {
 	return files
 }
 
-func newWorld(g enum.Digraph, remote []bool, named bool, versions []int) *world {
+func newWorld(g enum.Digraph, remote []bool, named bool, versions []int, scheme int) *world {
 	n := g.N
-	w := &world{n: n, g: g, remote: remote, named: named, versions: versions,
+	w := &world{n: n, g: g, remote: remote, named: named, versions: versions, scheme: scheme,
 		files: make([]map[string]string, n), mf: make([]map[string]string, n), names: make([]string, n),
 		commits: make([]uuid.UUID, n), reach: make([][]int, n), direct: make([][]int, n), ref4: make([]string, n), ref5: make([]string, n)}
 	for i := 0; i < n; i++ {
-		w.files[i] = depFiles(i, g, versions[i])
+		w.files[i] = depFiles(i, g, versions[i], scheme)
 		w.mf[i] = refModuleFiles(w.files[i])
 		if remote[i] || named {
 			w.names[i] = depName(i)
@@ -149,6 +184,15 @@ func (w *world) specs(targets int, depDesc bool) []modSpec {
 	return specs
 }
 
+// sigSuffix separates defects that need a special path scheme from the general ones (plain worlds keep
+// the signatures they always had).
+func (w *world) sigSuffix() string {
+	if w.scheme == schemePlain {
+		return ""
+	}
+	return "/" + schemeNames[w.scheme]
+}
+
 func (w *world) kind(i int) string {
 	if w.remote[i] {
 		return "remote"
@@ -157,7 +201,7 @@ func (w *world) kind(i int) string {
 }
 
 func (w *world) base(part string) caseB {
-	return caseB{Part: part, N: w.n, Edges: w.g.Edges(), Remote: w.remote, NamedLocals: w.named}
+	return caseB{Part: part, N: w.n, Edges: w.g.Edges(), Remote: w.remote, NamedLocals: w.named, Scheme: schemeNames[w.scheme]}
 }
 
 func sortedStrings(in []string) bool { return sort.StringsAreSorted(in) }
@@ -232,52 +276,71 @@ func (e *explorer) partB() {
 				anyLocal = true
 			}
 		}
-		for _, named := range []bool{false, true} {
-			if named && !anyLocal {
-				continue
+		hasEdge := len(it.g.Edges()) > 0
+		for scheme := 0; scheme < numSchemes; scheme++ {
+			if scheme == schemeWKTProvider && !hasEdge {
+				continue // nobody imports the provided file: the same as a plain world
 			}
-			w := newWorld(it.g, it.remote, named, make([]int, n))
-			r.Distinct(fmt.Sprintf("B|%d|%v|%v|%v", n, it.g.Edges(), it.remote, named))
-			t.add("B/cases", 1)
-			for i := 0; i < n; i++ {
-				if len(w.reach[i]) > len(w.direct[i]) {
-					t.add("B/cases-with-transitive-dep", 1)
-					break
+			for _, named := range []bool{false, true} {
+				if named && !anyLocal {
+					continue
 				}
-			}
-			if anyLocal && anyRemote {
-				t.add("B/cases-mixed-local-remote", 1)
-			}
-			remoteMulti := false
-			for i := 0; i < n; i++ {
-				if it.remote[i] && len(w.reach[i]) >= 2 {
-					remoteMulti = true
-				}
-			}
-			provs := []string{"own"}
-			if !r.Quick() || n < 3 {
-				provs = append(provs, "cache-dir", "cache-tar")
-			}
-			if anyRemote {
-				provs = append(provs, "omni")
-			}
-			for _, order := range enum.Permutations(n) {
-				for targets := 0; targets <= n; targets++ {
-					if n == 1 && targets == 1 {
-						continue
-					}
-					for _, prov := range provs {
-						for _, desc := range []bool{false, true} {
-							if desc && (!remoteMulti || prov != "own") {
-								continue
-							}
-							e.checkWorld(t, w, order, targets, prov, desc)
+				w := newWorld(it.g, it.remote, named, make([]int, n), scheme)
+				if scheme == schemePlain {
+					r.Distinct(fmt.Sprintf("B|%d|%v|%v|%v", n, it.g.Edges(), it.remote, named))
+				} else {
+					r.Distinct(fmt.Sprintf("B|%d|%v|%v|%v|%s", n, it.g.Edges(), it.remote, named, schemeNames[scheme]))
+					t.add("B/cases-"+schemeNames[scheme], 1)
+					for _, ed := range it.g.Edges() {
+						if scheme == schemeWKTProvider && !it.remote[ed[0]] {
+							t.add("B/wkt-provider-edges/local-on-"+w.kind(ed[1]), 1)
 						}
 					}
 				}
+				t.add("B/cases", 1)
+				for i := 0; i < n; i++ {
+					if len(w.reach[i]) > len(w.direct[i]) {
+						t.add("B/cases-with-transitive-dep", 1)
+						break
+					}
+				}
+				if anyLocal && anyRemote {
+					t.add("B/cases-mixed-local-remote", 1)
+				}
+				remoteMulti := false
+				for i := 0; i < n; i++ {
+					if it.remote[i] && len(w.reach[i]) >= 2 {
+						remoteMulti = true
+					}
+				}
+				provs := []string{"own"}
+				// the module cache does not interact with the path scheme: cache providers on plain worlds only
+				if scheme == schemePlain && (!r.Quick() || n < 3) {
+					provs = append(provs, "cache-dir", "cache-tar")
+				}
+				if anyRemote {
+					provs = append(provs, "omni")
+				}
+				for _, order := range enum.Permutations(n) {
+					for targets := 0; targets <= n; targets++ {
+						if n == 1 && targets == 1 {
+							continue
+						}
+						for _, prov := range provs {
+							for _, desc := range []bool{false, true} {
+								if desc && (!remoteMulti || prov != "own") {
+									continue
+								}
+								e.checkWorld(t, w, order, targets, prov, desc)
+							}
+						}
+					}
+				}
+				e.depPerturbations(t, w)
+				if scheme == schemePlain { // pinned keys of remote modules carry no paths
+					e.pinnedDigestChanges(t, w)
+				}
 			}
-			e.depPerturbations(t, w)
-			e.pinnedDigestChanges(t, w)
 		}
 		e.merge(t)
 	})
@@ -312,7 +375,7 @@ func (e *explorer) checkWorld(t tally, w *world, order []int, targets int, prov 
 	mods, err := e.buildWorld(w, order, targets, prov, desc)
 	if err != nil {
 		c.Err = err.Error()
-		r.Violate("deps-build-error/"+prov+"/"+errClass(err), "building the module set failed: "+err.Error(), c)
+		r.Violate("deps-build-error/"+prov+"/"+errClass(err)+w.sigSuffix(), "building the module set failed: "+err.Error(), c)
 		return
 	}
 	for i := 0; i < w.n; i++ {
@@ -342,12 +405,12 @@ func (e *explorer) checkWorld(t tally, w *world, order []int, targets int, prov 
 				if errors.As(o.err, &dm) {
 					continue // a verification failure of this module's other digest type or of a dependency: reported there
 				}
-				r.Violate("deps-digest-error/"+dt+"/"+w.kind(i)+"/"+errClass(o.err), "Digest failed: "+fmt.Sprint(o.err), ci)
+				r.Violate("deps-digest-error/"+dt+"/"+w.kind(i)+"/"+errClass(o.err)+w.sigSuffix(), "Digest failed: "+fmt.Sprint(o.err), ci)
 				continue
 			}
 			if o.s != want {
 				diag := w.depDiagnose(dt, i, o.s)
-				r.Violate("deps-refdigest/"+dt+"/"+w.kind(i)+"/"+diag,
+				r.Violate("deps-refdigest/"+dt+"/"+w.kind(i)+"/"+diag+w.sigSuffix(),
 					fmt.Sprintf("%s digest of a %s module in a dependency graph differs from the reference construction (%s)", dt, w.kind(i), diag), ci)
 				continue
 			}
@@ -355,6 +418,9 @@ func (e *explorer) checkWorld(t tally, w *world, order []int, targets int, prov 
 				t.add("B/agree/omni", 1)
 			} else {
 				t.add("B/agree/"+w.kind(i), 1)
+			}
+			if w.scheme != schemePlain && dt == "b5" && !w.remote[i] && len(w.reach[i]) > 0 {
+				t.add("B/agree/"+schemeNames[w.scheme]+"/local-importer", 1)
 			}
 		}
 	}
@@ -387,13 +453,13 @@ func (e *explorer) depPerturbations(t tally, w *world) {
 	for j := 0; j < w.n; j++ {
 		versions := make([]int, w.n)
 		versions[j] = 1
-		w2 := newWorld(w.g, w.remote, w.named, versions)
+		w2 := newWorld(w.g, w.remote, w.named, versions, w.scheme)
 		r.Eval(1)
 		after, err := e.observeWorld(w2)
 		if err != nil {
 			c := w.base("B")
 			c.Perturb, c.Err = fmt.Sprintf("content of module %d changed", j), err.Error()
-			r.Violate("deps-build-error/perturbed/"+errClass(err), "building the perturbed module set failed: "+err.Error(), c)
+			r.Violate("deps-build-error/perturbed/"+errClass(err)+w.sigSuffix(), "building the perturbed module set failed: "+err.Error(), c)
 			continue
 		}
 		for i := 0; i < w.n; i++ {
@@ -416,6 +482,9 @@ func (e *explorer) depPerturbations(t tally, w *world) {
 				if (a != b) == expect {
 					if expect {
 						t.add("B/perturb/dependent-changed", 1)
+						if w.scheme != schemePlain && i != j {
+							t.add("B/perturb/dependent-changed/"+schemeNames[w.scheme], 1)
+						}
 					} else {
 						t.add("B/perturb/independent-unchanged", 1)
 					}
@@ -432,7 +501,7 @@ func (e *explorer) depPerturbations(t tally, w *world) {
 				c := w.base("B")
 				c.Module, c.Digest, c.Got, c.Got2 = i, dt, a, b
 				c.Perturb = fmt.Sprintf("content of module %d changed (module %d depends on it: %v)", j, i, dependsOn)
-				r.Violate("dep-sensitivity/"+verdict+"/"+dt+"/"+rel, "digest reaction to a dependency change is wrong: "+verdict, c)
+				r.Violate("dep-sensitivity/"+verdict+"/"+dt+"/"+rel+w.sigSuffix(), "digest reaction to a dependency change is wrong: "+verdict, c)
 			}
 		}
 	}
